@@ -1020,7 +1020,80 @@ def check_async_deferred(fails_out):
         shutil.rmtree(root, ignore_errors=True)
 
 
+def check_typed_columns(fails_out):
+    """C08: every shipped sortable field type, with documents that do and do not supply the field, over two segments and
+    after optimize: a supplied value comes back unchanged for its own document; a document without a value reads the type's
+    column default (never another document's value, never an exception); sorting by the field orders the supplied values."""
+    import datetime
+    import math
+    from decimal import Decimal
+    from whoosh import fields, query
+    from whoosh.filedb.filestore import RamStorage
+    kinds = [
+        ("int8", fields.NUMERIC(int, 8, sortable=True), [5, -128, 127, 0]),
+        ("uint16", fields.NUMERIC(int, 16, signed=False, sortable=True), [5, 0, 65535, 300]),
+        ("int32", fields.NUMERIC(int, 32, sortable=True), [5, -2 ** 31, 2 ** 31 - 1, 0]),
+        ("int64", fields.NUMERIC(int, 64, sortable=True), [5, -2 ** 63, 2 ** 63 - 1, 0]),
+        ("float32", fields.NUMERIC(float, 32, sortable=True), [1.5, -2.25, 0.0, 1024.0]),
+        ("float64", fields.NUMERIC(float, 64, sortable=True), [1.5, -2.25e100, 0.1, 1e300]),
+        ("decimal", fields.NUMERIC(Decimal, 64, decimal_places=2, sortable=True), [Decimal("1.25"), Decimal("-7.50"), Decimal("0.01"), Decimal("100")]),
+        ("datetime", fields.DATETIME(sortable=True), [datetime.datetime(2010, 1, 2, 3, 4, 5, 6), datetime.datetime(1, 1, 1),
+                                                       datetime.datetime(9999, 12, 31, 23, 59, 59, 999999), datetime.datetime(1970, 1, 1)]),
+        ("id", fields.ID(sortable=True), [u"b", u"a", u"\U0001F600", u"c c"]),
+    ]
+    for name, ftype, vals in kinds:
+        try:
+            sch = fields.Schema(k=fields.ID(stored=True), f=ftype)
+            ix = RamStorage().create_index(sch)
+            # documents 0, 2, 4, 6 carry vals[0..3]; the odd ones carry nothing
+            w = ix.writer()
+            for i in range(8):
+                if i == 4:
+                    w.commit(merge=False)
+                    w = ix.writer()
+                if i % 2 == 0:
+                    w.add_document(k=u"%d" % i, f=vals[i // 2])
+                else:
+                    w.add_document(k=u"%d" % i)
+            w.commit(merge=False)
+            for phase in ("two segments", "optimized"):
+                if phase == "optimized":
+                    ix.writer().commit(optimize=True)
+                with ix.searcher() as s_:
+                    r = s_.reader()
+                    cr = r.column_reader("f")
+                    dflt = None
+                    for dn in r.all_doc_ids():
+                        key = int(r.stored_fields(dn)["k"])
+                        got = cr[dn]
+                        if key % 2 == 0:
+                            if got != vals[key // 2] or type(got) is not type(vals[key // 2]):
+                                fails_out.append({"case": "C08-typed-column", "detail": "%s, %s: document %d supplied %r, column holds %r"
+                                                  % (name, phase, key, vals[key // 2], got), "corpus": None})
+                                return
+                        else:
+                            isnan = isinstance(got, float) and math.isnan(got)
+                            if dflt is None:
+                                dflt = (got, isnan)
+                            elif not ((isnan and dflt[1]) or got == dflt[0]):
+                                fails_out.append({"case": "C08-typed-column", "detail": "%s, %s: documents without a value read different "
+                                                  "defaults: %r and %r" % (name, phase, dflt[0], got), "corpus": None})
+                                return
+                    srt = [int(h["k"]) for h in s_.search(query.Every(), sortedby="f", limit=None)]
+                    have = [k_ for k_ in srt if k_ % 2 == 0]
+                    exp = sorted(range(0, 8, 2), key=lambda k_: (vals[k_ // 2], k_))
+                    if name != "id" and have != exp:
+                        fails_out.append({"case": "C08-typed-column", "detail": "%s, %s: sorting by the field orders the documents with "
+                                          "values as %r, expected %r" % (name, phase, have, exp), "corpus": None})
+                        return
+        except Exception as e:
+            fails_out.append({"case": "C08-typed-column", "detail": "%s: %s: %s | %s" % (name, type(e).__name__, e, traceback.format_exc()[-300:]),
+                              "corpus": None})
+            return
+
+
 def run_deterministic(fails):
+    check_typed_columns(fails)
     check_mpwriter(fails)
     check_async_deferred(fails)
     check_toc_selection(fails)
